@@ -78,6 +78,19 @@ func c09Gen(c *core.Ctx) func(yield func(c09Case) bool) {
 				return
 			}
 		}
+		// components without any tagged field (no configuration value, isolated nodes have no point at
+		// all): the callbacks of user processors run - and may fail - for them like for any other
+		allGraphs(3, []int{scen.ENone, scen.EName}, false, func(e [][]int) bool {
+			p := scen.GraphProg{N: 3, Edges: e, Obs: 1, Full: true, Faults: true, Kinds: "F", Family: "n3-untagged"}
+			if !yield(c09Case{p, 1}) {
+				stop = true
+				return false
+			}
+			return true
+		})
+		if stop {
+			return
+		}
 		allGraphs(3, alpha, false, func(e [][]int) bool {
 			masks := []int{0, 1, 4}
 			obs := []int{1}
@@ -185,6 +198,24 @@ func c09Faults(c *core.Ctx) {
 		st := envx.Explore(envx.Options{Kinds: p.Kinds, Bound: cs.Bound, Stop: c.Expired}, body)
 		c.S.Nontrivial += st.Execs - 1
 		c.S.Extra["fault_sites_reached"] += int64(len(sites))
+		// "every single place where a callback can fail": the callbacks of the user processor that apply
+		// to every created component must have been reached (and so armed) for each of them - a place
+		// that is silently skipped can never report its error
+		if !st.Truncated && !c.Expired() {
+			for i := 0; i < p.N; i++ {
+				if !ref.created[i] {
+					continue
+				}
+				nm := scen.Name(i, p.N)
+				for _, cb := range []string{"ainst", "props", "before", "after"} {
+					if site := cb + ":zz-proc0:" + nm; !sites[site] {
+						c.Outcome("site-skipped")
+						c.Report("C09/skipped/"+core.Hash(p.N, p.Edges, p.Lazy, p.Config, site), "callback-skipped", fmt.Sprintf("graph %v (lazy %v, configuration values: %v): the %s callback of the user post-processor was never invoked for the created component %s - an error it reports there cannot fail the start", p.Edges, p.Lazy, p.Config, cb, nm), cs)
+						break
+					}
+				}
+			}
+		}
 		if st.Truncated {
 			c.Cap("exploration of a program truncated by the budget")
 		}
